@@ -61,6 +61,8 @@ type Chain struct {
 // genesisExtraCoins, when set, is added to every funded genesis account (multi-denom streams).
 var genesisExtraCoins sdk.Coins
 
+var sharedPV tmtypes.PrivValidator
+
 var configDone bool
 
 func setConfigOnce() {
@@ -82,7 +84,11 @@ func NewChain(db dbm.DB, home string, accts []*Acct, balance int64, overrides ma
 	a := newAppOn(db, home)
 	c := &Chain{App: a, DB: db, Home: home, Accts: accts, TxCfg: a.TxConfig(), Time: time.Unix(1700000000, 0).UTC()}
 
-	pv := mock.NewPV()
+	// all chains of one process share the validator key, so that twins start from an identical genesis
+	if sharedPV == nil {
+		sharedPV = mock.NewPV()
+	}
+	pv := sharedPV
 	pk, err := pv.GetPubKey()
 	if err != nil {
 		return nil, err
